@@ -267,8 +267,8 @@ def strat_random(draw, tier="quick"):
     big = tier == "thorough"
     kw = dict(max_k=5, max_len=10 if big else 6, max_gap=5, max_start=8, shift_prob=0, strands=["+", "-", "+", "-", "."])
     ov = draw(st.integers(0, 3)) == 0
-    A = draw(S.location_spec(allow_overlap=ov, **kw))
-    B = draw(S.location_spec(allow_overlap=draw(st.integers(0, 4)) == 0, **kw))
+    A = draw(S.location_spec(allow_overlap=ov, allow_nested=True, **kw))
+    B = draw(S.location_spec(allow_overlap=draw(st.integers(0, 4)) == 0, allow_nested=True, **kw))
     if draw(st.booleans()):
         B["strand"] = A["strand"]
     hi = max(max(b[1] for b in A["blocks"]), max(b[1] for b in B["blocks"]))
@@ -312,6 +312,10 @@ def check_random(spec, ctx):
     so = rm.has_self_overlap(a) or rm.has_self_overlap(b)
     if so:
         ctx.label("self_overlapping_operand")
+        for bl_ in (a, b):
+            ne_ = rm.sorted_blocks(bl_)
+            if any(x[0] <= y[0] and y[1] <= x[1] and x != y for x in ne_ for y in ne_):
+                ctx.label("nested_operand")
     if any(x[0] == x[1] for x in a + b):
         ctx.label("empty_block_in_operand")
     norm = lambda bl: [tuple(x) for x in bl] == rm.blocks_of_set(rm.posset(bl)) and not rm.has_self_overlap(bl)  # noqa: E731
@@ -407,7 +411,7 @@ PROP = Prop(
             must_hit=["touching", "nested", "interleaved", "full_span&gap_overlap", "strand_mismatch&match_strand"],
             rule="ALL ordered pairs of normalised locations (non-empty subsets) over a 7-base (quick) / 9-base (thorough) genome x all 9 strand pairs x all match_strand/full_span combinations; every binary operation, plus every unary operation per location"),
         Leg("random_operands", check_random, strategy=strat_random, n_quick=700, n_thorough=6000, shards_quick=4,
-            must_hit=["parent_with_sequence", "self_overlapping_operand", "mismatched_parents", "empty_block_in_operand"],
+            must_hit=["parent_with_sequence", "self_overlapping_operand", "nested_operand", "mismatched_parents", "empty_block_in_operand"],
             rule="random operands with their own empty/adjacent/overlapping blocks, shuffled constructor order, with/without parents (id only, with sequence, mismatched id, mismatched sequence, one missing), random extensions and shifts"),
         Leg("empty_operand", check_empty_operand, enumerate=enum_empty, exhaustive=True, shards_quick=1, shards_thorough=1,
             rule="EmptyLocation as left/right operand of every operation"),
